@@ -14,7 +14,7 @@ func init() {
 	register(&Property{
 		ID:      "C15",
 		Run:     runC15,
-		Explain: "There is no ccache writer in the repository, so the oracle is the MIT credential-cache format description: (1) layout traces of CCache.Unmarshal, parseHeader, parsePrincipal, parseCredential, readData, readAddress, readAuthDataEntry and readTimestamp — field operations in control-flow order with their version conditions and loop context — equal the format's sequences for versions 1–4 (v4-only header, name type omitted and component count adjusted in v1, the doubled key type in v3, 32-bit lengths, the four times in authtime/starttime/endtime/renew-till order, is_skey, 4 flag bytes, counted address and authdata lists, ticket, second ticket), each stored into the field the format names; byte order is native for versions 1–2 and big-endian for 3–4; (2) accessors: GetEntry/Contains compare the server principal with the argument, GetEntries drops exactly the entries whose server realm starts with X-CACHECONF, GetClientCredentials takes name and realm from the default principal; (3) client.NewFromCCache looks up krbtgt/<default realm>, builds the session from that credential's same-named fields and adds every entry's ticket, times and key from one credential. Equality of parsed values for every file is not decided.",
+		Explain: "There is no ccache writer in the repository, so the oracle is the MIT credential-cache format description: (1) layout traces of CCache.Unmarshal, parseHeader, parsePrincipal, parseCredential, readData, readAddress, readAuthDataEntry and readTimestamp — field operations in control-flow order with their version conditions and loop context — equal the format's sequences for versions 1–4 (v4-only header, name type omitted and component count adjusted in v1, the doubled key type in v3, 32-bit lengths, the four times in authtime/starttime/endtime/renew-till order, is_skey, 4 flag bytes, counted address and authdata lists, ticket, second ticket), each stored into the field the format names; byte order is native for versions 1–2 and big-endian for 3–4; (2) accessors: GetEntry/Contains compare the server principal with the argument, GetEntries drops exactly the entries whose server realm starts with X-CACHECONF, GetClientCredentials takes name and realm from the default principal; (3) client.NewFromCCache looks up krbtgt/<default realm>, builds the session from that credential's same-named fields and adds every entry's ticket, times and key from one credential. Equality of parsed values for every file is not decided. Added: times are the sign-extended int32 read; the version-4 header loop can end before its first field read; the version-1 component-count adjustment depends on the version test alone.",
 		NotDecided: []string{
 			"arithmetic of the v4 header loop bound (`*p <= length`) for header lengths that are not 0 or a multiple of 12 — a question about MIT's writer",
 			"parsed values equal what an independent writer wrote, for every file; unchecked reads (C04)",
